@@ -371,6 +371,130 @@ _py33 = Contract(
           'finder there is no normal exit',
 )
 
+_STAR_IMPORTER = FnSpec('StarImporter', params=[('inference_state', Obj('InfState10')), ('import_path', Seq(ANY)),
+                                                ('module_context', Obj('CtxS')), ('level', INT)],
+                        ret=Obj('StarImp'), pure=True, assumed=False)
+_FOLLOW_G = 'StarImporter(self.inference_state, gi.get_paths()[-1], self.as_context(), gi.level).follow()'
+
+
+def _replay_star(inp):
+    """the real ModuleMixin.star_imports (memoisation removed) on a module with two star imports whose targets have
+    different dotted names; the imported modules take over further modules"""
+    from pyvc.replay import run_real, raw_function
+    from jedi.inference.value import module as modmod
+    from jedi.inference import imports as imp
+
+    class _N:
+        def __init__(self, s):
+            self.string_name = s
+
+    class FakeMod(modmod.ModuleValue):
+        def __init__(self, dotted, stars=()):
+            self.dotted, self._stars = dotted, list(stars)
+
+        @property
+        def name(self):
+            return _N(self.dotted.split('.')[-1])
+
+        def star_imports(self):
+            return list(self._stars)
+
+        def __repr__(self):
+            return '<%s>' % self.dotted
+
+        __hash__ = object.__hash__
+
+        def __eq__(self, other):
+            return self is other
+    mods = {d: FakeMod(d) for d in inp['all']}
+    for d, stars in inp.get('stars', {}).items():
+        mods[d]._stars = [mods[x] for x in stars]
+
+    class FakeImport:
+        level = 0
+
+        def __init__(self, target):
+            self.target = target
+
+        def is_star_import(self):
+            return True
+
+        def get_paths(self):
+            return [[self.target]]
+
+    class FakeTree:
+        def iter_imports(self):
+            return [FakeImport(t) for t in inp['targets']]
+
+    class FakeImporter:
+        def __init__(self, inference_state, import_path, module_context, level=0):
+            self.p = import_path
+
+        def follow(self):
+            return [mods[self.p[0]]] if not isinstance(self.p, str) else [mods[self.p]]
+
+    class Self:
+        inference_state = None
+        tree_node = FakeTree()
+
+        def as_context(self):
+            return None
+    real = imp.Importer
+    imp.Importer = FakeImporter
+    try:
+        fn = raw_function(modmod, 'ModuleMixin.star_imports')
+        out = run_real(lambda: sorted(m.dotted for m in fn(Self())))
+    finally:
+        imp.Importer = real
+    need = set(inp['targets'])
+    for t in inp['targets']:
+        need |= set(inp.get('stars', {}).get(t, []))
+    return {'NEEDED': sorted(need)}, out
+
+
+_STAR_LIB = [
+    {'all': ['a.util', 'b.util'], 'targets': ['a.util', 'b.util']},
+    {'all': ['a', 'b', 'x.core', 'y.core'], 'targets': ['a', 'b'], 'stars': {'a': ['x.core'], 'b': ['y.core']}},
+    {'all': ['m', 'n'], 'targets': ['m', 'n'], 'stars': {'m': ['n']}},
+]
+
+
+def _star_contract(which):
+    direct = which == 'direct'
+    c = Contract(
+        id='C10.ModuleMixin.star_imports.' + which, prop='C10',
+        clause='star imports: the modules whose names a module takes over with `from m import *` are ALL the modules '
+               'its star-import statements resolve to' + ('' if direct else ', plus ALL the modules those take over in turn') +
+               ' - none is dropped, whatever their names (gi, gm, gx: universally quantified statement / module / module)',
+        file='jedi/inference/value/module.py', qualname='ModuleMixin.star_imports',
+        params={'self': Obj('ModS')}, families=['ModS', 'ModNodeS', 'ImpS', 'StarImp', 'InfState10', 'CtxS'],
+        ret=Seq(Obj('ModS')), ghost={'gi': Obj('ImpS'), 'gm': Obj('ModS'), 'gx': Obj('ModS')},
+        locals={'modules': Seq(Obj('ModS'))}, names={'Importer': _STAR_IMPORTER},
+        requires=['all(len(i.get_paths()) >= 1 for i in self.tree_node.iter_imports())'],
+        loop_each={0: ['len(ITEM.get_paths()) >= 1']},
+        invariants={
+            0: ['implies(gi in DONE and gi.is_star_import() and gm in %s, gm in modules)' % _FOLLOW_G] if direct else
+               ['implies(gi in DONE and gi.is_star_import() and gm in %s and isinstance(gm, ModuleValue) and '
+                'gx in gm.star_imports(), gx in modules)' % _FOLLOW_G],
+            1: ['implies(gm in PRE_modules, gm in modules)', 'implies(gx in PRE_modules, gx in modules)'] +
+               ([] if direct else ['implies(gm in DONE and isinstance(gm, ModuleValue) and gx in gm.star_imports(), '
+                                   'gx in modules)']),
+        },
+        ensures=['implies(gi in self.tree_node.iter_imports() and gi.is_star_import() and gm in %s, gm in result)' % _FOLLOW_G]
+        if direct else
+        ['implies(gi in self.tree_node.iter_imports() and gi.is_star_import() and gm in %s and '
+         'isinstance(gm, ModuleValue) and gx in gm.star_imports(), gx in result)' % _FOLLOW_G],
+        notes='Importer(...).follow() and the star imports of the imported modules are abstract (pure) - the contract is '
+              'the closure step; the memoisation decorator (default []) is the recursion cut registered under C15',
+        witness={}, replay=_replay_star, concrete_only=True, witness_library=_STAR_LIB,
+        concrete_ensures=['all(d in result for d in NEEDED)'],
+    )
+    return c
+
+
+_star = _star_contract('direct')
+_star2 = _star_contract('transitive')
+
 _IS10 = Obj('IS10')
 
 _import_module10 = Contract(
@@ -468,6 +592,16 @@ FAMILIES = [
                                'import_path': Seq(ANY)}),
     Family('InfState10', attrs={'project': Obj('Project10')}),
     Family('IS10', attrs={'compiled_subprocess': Obj('Sub10')}),
+    Family('ModS', attrs={'inference_state': Obj('InfState10'), 'tree_node': Obj('ModNodeS')}, methods={
+        'as_context': FnSpec('ModuleValue.as_context', ret=Obj('CtxS'), pure=True),
+        'star_imports': FnSpec('ModuleValue.star_imports', ret=Seq(Obj('ModS')), pure=True, assumed=False,
+                               note='recursive use of the function under contract (memoised, default [])')}),
+    Family('CtxS'),
+    Family('ModNodeS', methods={'iter_imports': FnSpec('Module.iter_imports', ret=Seq(Obj('ImpS')), pure=True)}),
+    Family('ImpS', attrs={'level': INT}, axioms=['o.level >= 0'], methods={
+        'is_star_import': FnSpec('Import.is_star_import', ret=BOOL, pure=True),
+        'get_paths': FnSpec('Import.get_paths', ret=Seq(Seq(ANY)), pure=True)}),
+    Family('StarImp', methods={'follow': FnSpec('Importer.follow', ret=Seq(Obj('ModS')), pure=True, assumed=True)}),
     Family('Spec10', attrs={'loader': Opt(Obj('Loader10'))}),
     Family('Loader10'),
     Family('Sub10', methods={'get_module_info': FnSpec(
@@ -507,7 +641,7 @@ FAMILIES = [
     }),
 ]
 
-CONTRACTS = [_iter_solutions, _transform, _importer_init, _prepare, _import_module10, _infer_import, _py33]
+CONTRACTS = [_iter_solutions, _transform, _importer_init, _prepare, _import_module10, _infer_import, _py33, _star, _star2]
 
 
 def register(reg):
@@ -533,6 +667,9 @@ def register(reg):
     reg.names['importlib'] = _NS('importlib', {
         'machinery': _NS('importlib.machinery', {'PathFinder': _NS('PathFinder', {'find_spec': _MF('spec', 'path_finder_spec', spec=_pf)})}),
         'util': _NS('importlib.util', {'find_spec': _MF('spec', 'importlib.util.find_spec', spec=_gf)})})
+    reg.names['StarImporter'] = _STAR_IMPORTER
+    from pyvc.values import MCls as _MC
+    reg.names['ModuleValue'] = _MC('ModuleValue')
     reg.names['_from_loader'] = FnSpec('_from_loader', params=[('loader', Obj('Loader10')), ('string', STR)], ret=ANY,
                                        pure=True, assumed=True, raises=['ImportError'])
     from pyvc.values import MCls
